@@ -288,7 +288,7 @@ class PhasePredictor(QTable):
                 for _ in range(-(int(ncoeff) // -3)):
                     coeffs += f.readline().translate(d2e).split()
 
-                coeffs = np.array(coeffs, dtype=np.float64)
+                coeffs = np.array(coeffs + ["0"] * (2 - len(coeffs)), dtype=np.float64)
                 coeffs[0] += r_sign * float("0." + r_frac)
                 coeffs[1] += float(f0) * 60
 
